@@ -467,10 +467,12 @@ func (e *Engine) canon(fc *FrameCtx, v ssa.Value, depth int) (string, bool) {
 				return s, st && e.Immutable[typeName(fa.X.Type())+"."+f]
 			}
 			if _, ok := v.X.(*ssa.IndexAddr); ok {
-				// a value loaded from a slice/array element is identified by the
-				// register it was loaded into (immutable until redefined; predicates on
-				// it are dropped when the register is redefined by a loop)
-				return "v:" + e.valID(fc, v), true
+				// an element load is identified by its access path, so that repeated
+				// loads of the same element compare equal (bus.shards[i] read three
+				// times). Assumption: an element read twice on one path is not
+				// changed in between; predicates on it are dropped when the index
+				// register is redefined by a loop.
+				return s, st
 			}
 			return s, false
 		}
